@@ -116,6 +116,8 @@ type Exec struct {
 	specStart    int
 	specObjStart int
 	specSteps    int
+	interf       map[*Loc]bool
+	envInputs    int
 }
 
 func (e *Exec) unsupported(msg string) {
@@ -1623,7 +1625,13 @@ func (e *Exec) nextOp(fr *frame, ins *ssa.Next) Value {
 		return Tuple{e.ts.Bool(true), e.ts.BV(64, uint64(p)), e.ts.BV(32, uint64(r))}
 	}
 	if it.pos >= len(it.entries) {
-		return Tuple{e.ts.Bool(false), e.zero(tt.At(1).Type()), e.zero(tt.At(2).Type())}
+		zeroOrNil := func(t types.Type) Value {
+			if b, ok := t.(*types.Basic); ok && b.Kind() == types.Invalid {
+				return nil
+			}
+			return e.zero(t)
+		}
+		return Tuple{e.ts.Bool(false), zeroOrNil(tt.At(1).Type()), zeroOrNil(tt.At(2).Type())}
 	}
 	en := it.entries[it.pos]
 	it.pos++
